@@ -625,6 +625,15 @@ def corpus_net(rng, name):
             y = b.pool(x, "AVERAGE_POOL_2D", (2, 2), (1, 4), "VALID")
             z = b.reshape(y, [1, 84])
         return b.finish([z])
+    if name == "known_fc_keep_dims_batch":
+        # round 5 (rank sweep): FULLY_CONNECTED with keep_num_dims and a rank 4 result whose first dimension is 2 (patch C01-47)
+        b = make_builder(rng, name, "int8")
+        x = b.input([2, 2, 2, 8], scale=0.05, zp=3)
+        wt = b.const([8, 8], "int8", b.rand_weights([8, 8], "int8", "uniform"), [0.01], [0], 0, "w")
+        bt = b.const([8], "int32", list(range(8)), [0.0005], [0], 0, "b")
+        o = b.fm([2, 2, 2, 8], "int8", scale=0.1, zp=-3)
+        b.net.ops.append(netgen.Op("FULLY_CONNECTED", [x, wt, bt], [o], ("FullyConnectedOptions", dict(FusedActivationFunction=0, KeepNumDims=True))))
+        return b.finish([b.unary("RELU", o)])
     if name in ("known_unpack_negative_axis", "known_slice_size_minus1", "known_transpose_rank2_identity", "known_slice_end_clamped"):
         # round 5 (rank sweep / STRIDED_SLICE mask algebra): deterministic witnesses of C13-50, C13-51, C01-46, C01-45
         b = make_builder(rng, name, "int8")
@@ -1097,6 +1106,9 @@ def classify_failure(o, ans):
                 return "unpack-negative-axis-converted-with-the-rule-of-pack"
             if kind == "SLICE" and len(ins) > 2 and ins[2] < len(ti) and ti[ins[2]][4] is not None and -1 in ti[ins[2]][4]:
                 return "slice-size-minus-one-not-resolved"
+            if kind == "FULLY_CONNECTED" and n_op < len(sopts) and sopts[n_op].get("KeepNumDims") and outs[0] < len(ti) and \
+                    len(ti[outs[0]][0]) == 4 and ti[outs[0]][0][0] > 1:
+                return "fc-keep-num-dims-rank4-result-rows-not-written"
             if kind == "TRANSPOSE" and len(ins) > 1 and ins[0] < len(ti) and len(ti[ins[0]][0]) == 2 and ins[1] < len(ti) and ti[ins[1]][4] == [0, 1]:
                 return "transpose-rank2-identity-executed-as-transposition"
     if ans.endswith("verdict=fail") or ans.startswith("err:out:"):
@@ -1257,7 +1269,7 @@ def main():
                                                               "transpose_relu", "sqdiff_reshape", "dilation3_uint8", "shared_dilation3", "shared_tconv",
                                                               "prelu_reshape", "transpose_lut_mul", "protected_reshape_inplace",
                                                               "tconv_stride1_same_even", "tconv_stride1_valid", "pad_folded_conv", "shared_fold_same_valid",
-                                                              "unpack_negative_axis", "slice_size_minus1", "transpose_rank2_identity", "slice_end_clamped")]
+                                                              "unpack_negative_axis", "slice_size_minus1", "transpose_rank2_identity", "slice_end_clamped", "fc_keep_dims_batch")]
     # round-5 families first (so that the wall-clock budget of the quick tier never cuts them)
     jobs += [(ck.seed, i, "ssmask", k_inputs) for i in range(2400 if ck.thorough else 300)]
     jobs += [(ck.seed, i, "ranks", k_inputs) for i in range(3024 if ck.thorough else 378)]      # 21 kinds x 6 x 3 axis variants
